@@ -76,7 +76,7 @@ LEAVES = {
     'count': (lambda: [rs.ops.count()], lambda: [R.Scan(lambda a, i: a + 1, 0)], True),
     'count_r': (lambda: [rs.ops.count(reduce=True)], lambda: [R.Scan(lambda a, i: a + 1, 0, reduce=True)], True),
     'min': (lambda: [rs.math.min()], lambda: [R.Scan(lambda a, i: i if a is None or i < a else a, None)], True),
-    'max_r': (lambda: [rs.math.max(reduce=True)], lambda: [R.Scan(_maxn, None, reduce=True)], True),
+    'max_r': (lambda: [rs.math.max(reduce=True), rs.ops.map(_none0)], lambda: [R.Scan(_maxn, None, reduce=True), R.Map(_none0)], True),   # None (empty key) -> 0 so that int -> int composes
     'first': (lambda: [rs.ops.first()], lambda: [R.First()], True),
     'last': (lambda: [rs.ops.last()], lambda: [R.Last()], True),
     'take0': (lambda: [rs.ops.take(0)], lambda: [R.Take(0)], True),
@@ -117,17 +117,25 @@ COMPLETION = {'scan_add_r', 'scan_term', 'count_r', 'max_r', 'last', 'to_list_su
 EARLY = {'first', 'take0', 'take1', 'take2'}
 
 
-def build(desc):
-    """descriptor list -> (real ops list, ref ops list)"""
+def build(desc, tap=None, path='p'):
+    """descriptor list -> (real ops list, ref ops list).  When ``tap`` is given,
+    tap(label) operators are inserted at every boundary of the real pipeline:
+    before and after every operator, at head and tail of every inner pipeline
+    and of every tee_map branch."""
     real, ref = [], []
-    for d in desc:
-        a, b = build1(d)
-        real += a
+    if tap:
+        real.append(tap(path + ':0'))
+    for j, d in enumerate(desc):
+        a, b = build1(d, tap, '%s.%d' % (path, j))
+        for x, op in enumerate(a):
+            real.append(op)
+            if tap:
+                real.append(tap('%s:%d.%d' % (path, j + 1, x)))
         ref += b
     return real, ref
 
 
-def build1(d):
+def build1(d, tap=None, path='p'):
     if isinstance(d, str):
         d = [d]
     k = d[0]
@@ -135,23 +143,23 @@ def build1(d):
         f = LEAVES[k]
         return f[0](), f[1]()
     if k == 'group':
-        a, b = build(d[2])
+        a, b = build(d[2], tap, path + 'g')
         return [rs.ops.group_by(KM[d[1]], a)], [R.GroupBy(KM[d[1]], b)]
     if k == 'roll':
-        a, b = build(d[3])
+        a, b = build(d[3], tap, path + 'r')
         return [rs.data.roll(d[1], d[2], a)], [R.Roll(d[1], d[2], b)]
     if k == 'split':
-        a, b = build(d[2])
+        a, b = build(d[2], tap, path + 's')
         return [rs.data.split(KM[d[1]], a)], [R.Split(KM[d[1]], b)]
     if k == 'tsplit':
         _, act, inact, closing, include, inner = d
-        a, b = build(inner)
+        a, b = build(inner, tap, path + 't')
         cl = (lambda i: i % 4 == 0) if closing else None
         return ([rs.data.time_split(lambda i: i, active_timeout=act, inactive_timeout=inact, closing_mapper=cl,
                                     include_closing_item=include, pipeline=a)],
                 [R.TimeSplit(lambda i: i, act, inact, cl, include, b)])
     if k == 'tee':
-        brs = [build(b) for b in d[2]]
+        brs = [build(b, tap, '%sb%d' % (path, x)) for x, b in enumerate(d[2])]
         return ([rs.ops.tee_map(*[rx.pipe(*a) for a, _ in brs], join=d[1]), rs.ops.map(_fixt)],
                 [R.Tee([b for _, b in brs], d[1]), R.Map(_fixt)])
     raise KeyError(k)
@@ -207,7 +215,7 @@ STATELESS = ['map_inc', 'filter_even', 'filter_pos', 'clip', 'identity', 'do_act
 INT_LEAVES = [k for k in LEAVES if k not in ('progress',)]
 KEYED = [
     ('group', 'mod2'), ('group', 'tup2'), ('roll', 2, 2), ('roll', 2, 1), ('roll', 3, 2), ('roll', 2, 3), ('roll', 1, 1),
-    ('split', 'tup3'), ('split', 'div3'), ('tsplit', 3, 2, False, True), ('tsplit', None, 2, True, True), ('tsplit', 3, None, True, False),
+    ('split', 'tup3'), ('split', 'str2'), ('tsplit', 3, 2, False, True), ('tsplit', None, 2, True, True), ('tsplit', 3, None, True, False),
 ]
 
 
@@ -289,7 +297,7 @@ def depth_of(desc):
 
 BRANCH = {'filter_even': 2, 'filter_odd': 2, 'filter_pos': 2, 'scan_max': 2, 'min': 2, 'max_r': 2, 'duc': 2, 'duc_k': 2, 'clip': 3,
           'distinct': 2, 'fill_none': 1}
-KBRANCH = {'mod2': 2, 'tup2': 2, 'big2': 2, 'flt2': 2, 'str2': 2, 'mod3': 3, 'tup3': 3, 'div3': 2}
+KBRANCH = {'mod2': 2, 'tup2': 2, 'big2': 2, 'flt2': 2, 'str2': 2, 'mod3': 3, 'tup3': 3, 'div3': 7}
 
 
 def branching(desc):
